@@ -15,6 +15,28 @@ def fuzz(target, seconds, **kw):
 
 
 PROPS = {
+    "C05": {
+        "rule": "cases (80%): grammar-derived query models covering every construct the parser supports (selector matchers; all 14 "
+                "stage kinds with their argument forms; label predicates of five types combined with and/or/,/juxtaposition/"
+                "parentheses; all 15 range functions with parameter/grouping/unwrap(+conversion,+filters)/offset and range before or "
+                "after the pipeline; all 11 vector aggregations with by/without before or after and k; vector(); label_replace; "
+                "signed literals; binary operations with bool/on/ignoring/group_left/group_right/include lists; redundant "
+                "parentheses around selectors, predicates, whole log queries and metric expressions), literals generated with the "
+                "value they denote (byte strings, durations ns..y incl. compound and decimal, SI/IEC byte sizes, ints/decimals/"
+                "exponents), printed under a generated layout (blanks, tabs, CR/LF, # comments, raw strings) and under the plain "
+                "layout; oracle: logql.Parse must succeed on both texts and its tree must equal the tree constructed directly "
+                "from the model (Paren wrappers erased, regexes by source) - evaluations counts each Parse; cases (20%): one of 75 "
+                "grammar-forbidden texts built around generated selectors/pipelines, Parse must fail; non-trivial = >=3 constructs "
+                "with a non-default layout, or a negative case; distinct by case hash",
+        "assumptions": [
+            "chains of >=3 operands without parentheses are not generated (operator grouping is C13's subject)",
+            "juxtaposition only in front of an identifier; a parenthesised selector only inside range expressions; '==' never with a string literal",
+            "quirks of the Go token scanner the lexer is built on are outside the grammar: 0B/0b (binary prefix), units starting with P/E (exponent), // and /* (comments)",
+            "reserved words are never label names; function words are (followed by an operator, comma or closing token)",
+        ],
+        "quick": [rapid("TestC05", 4000)],
+        "thorough": [rapid("TestC05", 20000, shards=16, timeout=2400), fuzz("FuzzC05", 120)],
+    },
     "C07": {
         "rule": "cases: 1-6 records with generated label sets (missing labels, mixed-case and padded values) and lines, x one "
                 "rewriting stage: label_format with 1-3 renames dst=src (src/dst present or absent, src==dst) and templates from a "
